@@ -626,6 +626,7 @@ func vfC15Provisional(e *vfEnv, r *vfResult, idx int) { //nolint:cyclop
 
 		return c
 	}
+	tFirst := time.Now() // the provisional connection's alive timer starts some time after this instant
 	first := dial()
 	if first == nil {
 		r.inconclusive(1)
@@ -677,6 +678,13 @@ func vfC15Provisional(e *vfEnv, r *vfResult, idx int) { //nolint:cyclop
 		return
 	}
 	defer pc.Close() //nolint:errcheck
+	if time.Since(tFirst) > alive*7/10 {
+		// the harness was too slow (it plans at most 40 ms between the first connection and the claim): the provisional
+		// connection may rightly have expired before it was claimed
+		r.count("c15_provisional_claims_not_judged_slow_harness", 1)
+
+		return
+	}
 	var mu sync.Mutex
 	got := map[string][]string{}
 	go func() {
